@@ -320,6 +320,14 @@ class Run:
             for fn in os.listdir(rdir):
                 if fn.startswith('%s_%d_' % (self.tier, self.seed)):
                     os.remove(os.path.join(rdir, fn))
+        # a broken obligation is reported on its own (no-failing-input-found) only when the search found no
+        # concrete failing input; otherwise it is recorded inside the replay of the failing input
+        concrete = [v for v in self.violations if v[2].get('kind') != 'broken-obligation']
+        broken = [v for v in self.violations if v[2].get('kind') == 'broken-obligation']
+        if concrete and broken:
+            for v in concrete:
+                v[2]['also_broken_obligations'] = [{'key': b[0], 'description': b[1]} for b in broken]
+            self.violations = concrete
         for i, (key, desc, payload) in enumerate(self.violations):
             os.makedirs(rdir, exist_ok=True)
             path = os.path.join(rdir, '%s_%d_%d.json' % (self.tier, self.seed, i))
